@@ -65,6 +65,10 @@ def _geoms(tier):
         # compressed clusters byte-packed back to back (several start in the same 512-byte host sector), as qemu-img -c writes
         dict(cb=12, ver=3, W=4, at="0", alpha="V3", layout="l1_first", cut=0, hl=112, only=[B.U, B.N, B.C], pack=True),
         dict(cb=16, ver=3, W=3, at="straddle", alpha="V3", layout="l2_first", cut=0, hl=112, only=[B.Z, B.C], pack=True),
+        # a backing file that ends 5 MiB before the image does: unallocated clusters beyond its end read as zeros, however long the
+        # request
+        dict(cb=16, ver=3, W=3, at="straddle", alpha="V3", layout="l1_first", cut=512, hl=112, backing="short-5m",
+             only=[B.U, B.N, B.Z]),
         # far into the L1 table: the window straddles L1 entries 129 / 130 (beyond the 128 cached L2 tables)
         dict(cb=9, ver=3, W=3, at="l1-130", alpha="V3", layout="l2_reversed", cut=7, hl=112, only=[B.U, B.N, B.Z, B.C]),
         # the disk ends exactly where the coverage of the last L1 entry ends and the buffer is larger than what is left
@@ -182,7 +186,8 @@ def _backing(g, size, cs):
     how = g.get("backing")
     if how is None:
         return None, None
-    n = {"longer": size + cs + 512, "equal": size, "shorter": max(512, size - cs - cs // 2 - 100), "empty": 0}[how]
+    n = {"longer": size + cs + 512, "equal": size, "shorter": max(512, size - cs - cs // 2 - 100), "empty": 0,
+         "short-5m": max(512, size - (5 << 20) - 100)}[how]
     if how == "shorter" and size > (64 << 20):
         n = size - cs - cs // 2 - 100
     return n, how
@@ -224,6 +229,11 @@ def _std_requests(g, size, buf, at, total):
         reqs = request_pairs(pts)
     if size <= (1 << 20):
         reqs.append((0, size))
+    if g.get("backing") == "short-5m":
+        # single requests that run 2 .. 4.9 MiB past the end of the backing file (and on into the window)
+        bn = size - (5 << 20) - 100
+        reqs += [(bn - 4096, 3 << 20), (bn - 100, (2 << 20) + 300000), (bn + 1, (5 << 20) - 2), (size - (4 << 20), (4 << 20) - 1),
+                 (bn - 70000, (5 << 20) + 70100)]
     return reqs
 
 
